@@ -170,3 +170,17 @@ Proof. vm_compute. reflexivity. Qed.
 
 Lemma rp_legacy : restructure_text (acc_default []) rp_src rp_goal true false rp_body rp_pat = CNone.
 Proof. vm_compute. reflexivity. Qed.
+
+(* expression-mode untouched-outside is not vacuous on the replace example *)
+Definition rp_matched : list (N * amatch) :=
+  keys (get_matches (acc_default []) rp_body (create_pattern rp_pat) 0 (tlen rp_src) None).
+Lemma rp_expr_domain :
+  find_matched rp_matched rp_body = None /\ node_start rp_body = 0%N /\ node_end rp_body = tlen rp_src /\
+  length (nearest rp_matched rp_body) = 1%nat /\
+  Forall (fun n => (node_start n <= node_end n /\ node_end n <= tlen rp_src)%N) (nearest rp_matched rp_body) /\
+  ForallOrdPairs node_disj (nearest rp_matched rp_body).
+Proof.
+  vm_compute. repeat split; try discriminate.
+  - repeat constructor; discriminate.
+  - repeat constructor.
+Qed.
